@@ -242,6 +242,20 @@ def evaluate(lay, base, name, via, rec, l2t=None):
     return None
 
 
+def configure(l2t, base, strict, how):
+    """Returns the (directory, strictness) in force afterwards."""
+    if how == 'setter':
+        l2t.set_tex_input_directory(base, strict_input=strict)
+    elif how == 'attrs':
+        l2t.tex_input_directory = base
+        l2t.strict_input = strict
+    elif how == 'attr-strict':
+        l2t.strict_input = strict
+    else:
+        l2t.tex_input_directory = base
+    return l2t.tex_input_directory, bool(l2t.strict_input)
+
+
 def check_case(case, rec):
     """Replay: rebuild the layout from its seed."""
     import random
@@ -252,9 +266,10 @@ def check_case(case, rec):
         lay = Layout(random.Random(case['layout_seed']), root)
         if 'steps' in case:
             l2t = LatexNodes2Text()
-            for (b, strict, name, via) in case['steps']:
+            for st in case['steps']:
+                (b, strict, name, via), how = st[:4], (st[4] if len(st) > 4 else 'setter')
                 b, name = b.replace('<R>', root), name.replace('<R>', root)
-                l2t.set_tex_input_directory(b, strict_input=strict)
+                configure(l2t, b, strict, how)
                 if not strict:
                     try:
                         (l2t.read_input_file(name) if via == 'read' else l2t.latex_to_text('\\input{%s}' % name))
@@ -302,12 +317,16 @@ def run_reuse(desc, rec, rng):
                 for _ in range(rng.randint(2, 5)):
                     base = rng.choice(bases)
                     strict = rng.random() < 0.7
-                    l2t.set_tex_input_directory(base, strict_input=strict)
+                    # re-configured through the setter or, once the setter has been used, by assigning the public
+                    # attributes it sets ("simply sets properties which are used by ... read_input_file()")
+                    how = 'setter' if not steps else rng.choice(['setter', 'attrs', 'attr-strict', 'attr-dir'])
+                    base, strict = configure(l2t, base, strict, how)
                     rec.monitor('reconfigurations')
+                    rec.hist('reconfigured_through', how)
                     for _ in range(rng.randint(1, 3)):
                         name = rng.choice(names)
                         via = rng.choice(['read', 'l2t', 'l2t'])
-                        steps.append([base.replace(root, '<R>'), strict, name.replace(root, '<R>'), via])
+                        steps.append([base.replace(root, '<R>'), strict, name.replace(root, '<R>'), via, how])
                         rec.case()
                         rec.monitor('reused_object_calls')
                         if not strict:
